@@ -399,6 +399,14 @@ def h_correlations(eng):
             P(close(n_, 2 * v) and close(s_, math.sqrt(2) * e), "independent-sum-in-quadrature")
             n_, s_ = ve(m - m2)
             P(close(n_, 0.0) and close(s_, math.sqrt(2) * e), "independent-difference-in-quadrature")
+    # a unit whose name starts with e/E right after the group is a unit, not an exponent
+    for text, nv, sv, un in (("(2.0 +/- 0.1)eV - 3 eV", -1.0, 0.1, "electron_volt"), ("(2.0 +/- 0.1)eV + 3 eV", 5.0, 0.1, "electron_volt"), ("2.0(1)erg+1 erg", 3.0, 0.1, "erg"), ("(2.0 +/- 0.1)e-3 eV", 0.002, 0.0001, "electron_volt"), ("(2.0 +/- 0.1)E+3 eV", 2000.0, 100.0, "electron_volt")):
+        try:
+            q = ureg.parse_expression(text)
+            ok = abs(q.magnitude.nominal_value - nv) <= 1e-12 * max(1, abs(nv)) and abs(q.magnitude.std_dev - sv) <= 1e-12 and str(q.units) == un
+        except Exception:  # noqa: BLE001
+            ok = False
+        eng.prove(ok, f"parse-unit-starting-with-e:{text}")
     # offset units: a temperature and its converted self
     T = ureg.Measurement(25.0, 0.5, "degC")
     d = T.to("degF").to("degC") - T
@@ -425,4 +433,5 @@ def cases(tier, seed):
     for u in ("meter", "second", "newton"):
         out.append(Case("H19.a", f"negative-error:{u}", M, "h_negative_error", {"u": u}, validate=1))
         out.append(Case("H19.d", f"parse:{u}", M, "h_parse", {"u": u}, validate=1))
+    out.append(Case("H19.obs", "observed", "pvlib.harness.observed", "h_c19", {}, kind="conc"))
     return out
